@@ -274,9 +274,12 @@ func (fr *Frame) composite(st *State, n *ast.CompositeLit, addr bool) Val {
 		if addr {
 			r := x.alloc(st, "new")
 			p := Val{T: r, S: "Int", Ty: types.NewPointer(t)}
-			for i := 0; i < tt.NumFields(); i++ {
-				x.writeField(st, p, t, tt.Field(i), vals[i])
+			if x.eng.inRepo(t) || !isLibModelled(t) {
+				for i := 0; i < tt.NumFields(); i++ {
+					x.writeField(st, p, t, tt.Field(i), vals[i])
+				}
 			}
+			libNew(fr, st, p, t)
 			return p
 		}
 		if x.u.sortOf(t) == "Time" {
@@ -625,6 +628,16 @@ func isNamedPtr(t types.Type) bool {
 	if p, ok := t.(*types.Pointer); ok {
 		_, ok2 := p.Elem().(*types.Named)
 		return ok2
+	}
+	return false
+}
+
+func isLibModelled(t types.Type) bool {
+	if n, ok := t.(*types.Named); ok && n.Obj().Pkg() != nil {
+		switch n.Obj().Pkg().Path() + "." + n.Obj().Name() {
+		case "bytes.Buffer", "math/big.Int":
+			return true
+		}
 	}
 	return false
 }
